@@ -1,5 +1,6 @@
 #!/usr/bin/env python3
-"""Run the repository's full test suite against every seeded change that has no 'tests' entry yet."""
+"""Run the repository's full test suite against every seeded change that has no 'tests' entry yet.
+usage: seeded_tests.py [workers] [id-prefix ...]"""
 import json, os, subprocess, sys, shutil, tempfile, time, glob
 from concurrent.futures import ThreadPoolExecutor
 
@@ -9,9 +10,11 @@ def one(d):
     if 'tests' in meta:
         return d, 'already'
     wt = tempfile.mkdtemp(prefix='nvst_', dir='/tmp'); os.rmdir(wt)
-    subprocess.check_call(['git', '-C', '/repo', 'worktree', 'add', '-q', '--detach', wt, 'HEAD'])
+    # the tree the change was written against (earlier rounds predate the last fix: commits)
+    subprocess.check_call(['git', '-C', '/repo', 'worktree', 'add', '-q', '--detach', wt, meta.get('repo_head', 'HEAD')])
     try:
-        subprocess.check_call(['git', '-C', wt, 'apply', d + '/patch.diff'])
+        if subprocess.call(['git', '-C', wt, 'apply', d + '/patch.diff']) != 0:
+            return d, 'patch does not apply to %s' % meta.get('repo_head', 'HEAD')
         t = time.time()
         p = subprocess.run('/venv/bin/python -m pytest -q -p no:cacheprovider --timeout=900 tests 2>&1 | tail -3', shell=True, cwd=wt,
                            stdout=subprocess.PIPE, text=True, timeout=5400)
@@ -26,6 +29,8 @@ def one(d):
 
 dirs = sorted(glob.glob('/verif/seeded/*/'))
 dirs = [d.rstrip('/') for d in dirs if os.path.exists(d + 'meta.json')]
+if len(sys.argv) > 2:
+    dirs = [d for d in dirs if any(os.path.basename(d).startswith(x) for x in sys.argv[2:])]
 with ThreadPoolExecutor(max_workers=int(sys.argv[1]) if len(sys.argv) > 1 else 2) as ex:
     for d, r in ex.map(one, dirs):
         print(os.path.basename(d), r, flush=True)
